@@ -34,18 +34,6 @@ func altResults(ids []string) model.AlternativeResults {
 	return res
 }
 
-func uniq(l []string) []string {
-	seen := map[string]bool{}
-	var out []string
-	for _, x := range l {
-		if !seen[x] {
-			seen[x] = true
-			out = append(out, x)
-		}
-	}
-	return out
-}
-
 func init() {
 	props["C01"] = func(o *Out, r *Rng, n int, thorough bool) {
 		maxN := 8
